@@ -111,6 +111,17 @@ ZERO_FIELDS = {("struct cds_wfs_head", "node"), ("struct cds_lfs_head", "node"),
                ("struct __cds_wfcq_head", "node"), ("struct cds_wfcq_head", "node")}
 
 
+# statement-level declaration macros: the declared object is a local that lives in (private) memory
+DECL_MACROS = {"CDS_LIST_HEAD": "struct cds_list_head", "DEFINE_URCU_WAIT_NODE": "struct urcu_wait_node",
+               "cmm_annotate_define": "cmm_annotate_t"}
+# iteration macros over sequential containers: name -> (index of the cursor argument, index of the `safe` temporary or None,
+# index of the first container argument).  The container itself is not modelled: the cursor values come from the oracle
+# (events `ext "<macro>.first"` / `ext "<macro>.next"`), the loop structure and the body are translated.
+LIST_LOOPS = {"cds_list_for_each_entry_safe": (0, 1, 2), "cds_list_for_each_entry": (0, None, 1),
+              "cds_list_for_each_entry_reverse": (0, None, 1),
+              "cds_wfs_for_each_blocking_safe": (1, 2, 0), "__cds_wfcq_for_each_blocking_safe": (2, 3, 0)}
+
+
 class Unsupported(Exception):
     pass
 
@@ -137,7 +148,15 @@ def find_function(text, name):
             continue
         back = text.rfind("static", 0, m.start())
         if back < 0 or ";" in text[back:m.start()] or "}" in text[back:m.start()]:
-            continue
+            # a non-static definition: `type name(` at the start of a line, nothing but the return type before it
+            ls = text.rfind("\n", 0, m.start()) + 1
+            before = text[ls:m.start()]
+            if not re.match(r"^[A-Za-z_][\w\s\*]*$", before) and before.strip() != "":
+                continue
+            if before.strip() == "":
+                pl = text.rfind("\n", 0, ls - 1) + 1
+                if not re.match(r"^[A-Za-z_][\w\s\*]*$", text[pl:ls].strip() or "x"):
+                    continue
         k = j + 1
         depth = 1
         while depth:
@@ -454,6 +473,26 @@ class Parser:
         if tok == "continue":
             self.eat(); self.eat(";")
             return ("continue",)
+        if tok in DECL_MACROS and self.peek(1) == "(":
+            self.eat(); self.eat("(")
+            args = [self.assign()]
+            while self.peek() == ",":
+                self.eat()
+                args.append(self.assign())
+            self.eat(")")
+            self.eat(";")
+            name = args[0][1]
+            self.tr.locals.add(name)
+            self.tr.ltypes[name] = DECL_MACROS[tok]
+            return ("declmacro", tok, name, args[1:])
+        if tok in LIST_LOOPS and self.peek(1) == "(":
+            self.eat(); self.eat("(")
+            args = [self.assign()]
+            while self.peek() == ",":
+                self.eat()
+                args.append(self.assign())
+            self.eat(")")
+            return ("listloop", tok, args, self.stmt())
         if self.looks_like_decl():
             return self.decl()
         e = self.expr()
@@ -465,7 +504,12 @@ def lstr(s):
     return '"' + s + '"'
 
 
-def strip_conditionals(text, defines):
+def pp_key(cond):
+    import hashlib
+    return "PP_" + hashlib.sha1(re.sub(r"\s+", " ", cond.strip()).encode()).hexdigest()[:12]
+
+
+def strip_conditionals(text, defines, consts=None):
     """file-level #ifdef/#ifndef/#if defined(X)/#else/#endif resolved for the given set of defined names; a condition of any
     other form keeps its first branch and drops the #else branch (recorded by the caller through `unknown`)"""
     out, stack, unknown = [], [], []
@@ -485,7 +529,8 @@ def strip_conditionals(text, defines):
                 stack.append((not v) if rest.startswith("!") else v)
             else:
                 unknown.append(rest)
-                stack.append(True)
+                v = (consts or {}).get(pp_key(rest))
+                stack.append(True if v is None else (str(v) != "0"))
         elif d == "elif":
             unknown.append(rest)
             if stack:
@@ -508,14 +553,16 @@ ALIASES = {"cds_wfcq_enqueue": "_cds_wfcq_enqueue", "cds_wfcq_node_init": "_cds_
 
 
 class Translator:
-    def __init__(self, defines=(), own_files=(), prefix="", search=None):
+    def __init__(self, defines=(), own_files=(), prefix="", search=None, consts=None):
         self.texts = {}
+        self.pp_unknown = []
         self.defines, self.own_files, self.prefix = set(defines), set(own_files), prefix
         self.search = list(search or SEARCH)
         for f in self.search:
             t = strip_comments(open(os.path.join(REPO, f)).read())
             if f in self.own_files:
-                t, _ = strip_conditionals(t, self.defines)
+                t, unk = strip_conditionals(t, self.defines, consts)
+                self.pp_unknown += [(f, u) for u in unk]
             self.texts[f] = t
         self.defs = {}          # name -> (params, lean stmt text)
         self.order = []
@@ -523,6 +570,7 @@ class Translator:
         self.need_consts = set()
         self.zero_offsets = set()
         self.cexprs = {}
+        self.local_consts = {}
         self.ltypes = {}
         self.api = api_defaults()
         self.memlocals = set()
@@ -575,7 +623,7 @@ class Translator:
         self.goto_labels, self.loop_depth = set(), 0
         try:
             ast = Parser(tokenize(body), self).block()
-            self.memlocals = set(address_taken(ast)) & self.locals
+            self.memlocals = (set(address_taken(ast)) | set(declmacro_names(ast))) & self.locals
             if self.memlocals & set(params):
                 raise Unsupported("address of a parameter")
             stmts = self.stmt(ast)
@@ -647,9 +695,16 @@ class Translator:
             if n in ("true", "false"):
                 return [], ".lit %d" % (1 if n == "true" else 0)
             if re.match(r"^[A-Z][A-Z0-9_]*$", n):
-                self.need_consts.add(n)
-                v = self.consts.get(n)
-                return [], ".cst %s (%s)" % (lstr(n), v if v is not None else "0")
+                key = n
+                for f in self.own_files:
+                    m = re.search(r"^[ \t]*#[ \t]*define[ \t]+%s[ \t]+(.+)$" % re.escape(n), self.texts[f], re.M)
+                    if m:
+                        key = self.prefix + n           # a constant local to this unit's .c file: its #define text is copied
+                        self.local_consts[key] = m.group(1).strip()
+                if key == n:
+                    self.need_consts.add(n)
+                v = self.consts.get(key)
+                return [], ".cst %s (%s)" % (lstr(key), v if v is not None else "0")
             if any(find_function(t, n) for t in self.texts.values()):
                 return [], ".addrGlob %s" % lstr(n)                 # function designator
             return [], ".pload (.addrGlob %s)" % lstr(n)        # plain read of a global
@@ -825,6 +880,7 @@ class Translator:
         return pre + [".prim none (.ext %s) %s" % (lstr(name), a)], None
 
     def blk(self, stmts):
+        stmts = [(".assign %s (.lit 0)" % lstr("_goto_" + x[1])) if isinstance(x, tuple) else x for x in stmts]
         if not stmts:
             return ".skip"
         if len(stmts) == 1:
@@ -832,35 +888,42 @@ class Translator:
         return "block [" + ", ".join("(%s)" % s if not s.startswith("(") else s for s in stmts) + "]"
 
     def stmt_list(self, stmts):
-        """a block: forward gotos become flags; what follows a statement that may have jumped is guarded by the flag
-        until the label is reached (inside a loop the guard leaves the loop)"""
+        """a block: forward gotos become flags; what follows a statement that may have jumped is guarded by the pending
+        flags until the label is reached (inside a loop the guard leaves the loop); the flag is cleared at its label"""
         out = []
+        pending = set()
         i = 0
         while i < len(stmts):
             x = stmts[i]
-            out += self.stmt(x)
-            g = gotos_in(x)
-            if g:
-                # labels of g that are in the rest of this block end the guard for that label
-                rest = stmts[i + 1:]
-                pos = [j for j, y in enumerate(rest) if y[0] == "label" and y[1] in g]
-                cut = min(pos) if pos else len(rest)
-                guarded = rest[:cut]
-                after = rest[cut:]
-                flags = sorted(g)
+            if x[0] == "label":
+                pending.discard(x[1])
+                if x[1] in self.goto_labels or True:
+                    out.append(("LABEL", x[1]))
+                i += 1
+                continue
+            if pending:
+                j = i
+                while j < len(stmts) and not (stmts[j][0] == "label" and stmts[j][1] in pending):
+                    j += 1
+                guarded = stmts[i:j]
+                flags = sorted(pending)
                 cond = ".var %s" % lstr("_goto_" + flags[0])
                 for f in flags[1:]:
                     cond = ".bin .lor (%s) (.var %s)" % (cond, lstr("_goto_" + f))
-                if any(contains_kind(y, "label") for y in guarded):
-                    raise Unsupported("goto across another label")
-                inner = self.stmt_list(list(guarded)) if guarded else []
+                inner = self.stmt_list(list(guarded))
                 esc = ".brk" if self.loop_depth > 0 else ".skip"
-                if inner or esc != ".skip":
-                    out.append(".ifte (%s) (%s) (%s)" % (cond, esc, self.blk(inner)))
-                # remaining gotos of g whose label is further away stay pending for the enclosing block
-                out += self.stmt_list(list(after))
-                return out
+                out.append(".ifte (%s) (%s) (%s)" % (cond, esc, self.blk(inner)))
+                for y in guarded:
+                    pending |= (gotos_in(y) - labels_in(y))
+                # labels inside the guarded region were consumed there
+                pending -= set(l for y in guarded for l in labels_in(y))
+                i = j
+                continue
+            out += self.stmt(x)
+            pending |= (gotos_in(x) - labels_in(x))
             i += 1
+        # resolve label markers: clear the flag where its label stands (only for labels some goto targets; decided at the end
+        # of the function, so keep markers as tuples until function() finalises them)
         return out
 
     def stmt(self, s):
@@ -872,6 +935,36 @@ class Translator:
             return []
         if k == "label":
             return []
+        if k == "declmacro":
+            if s[1] == "DEFINE_URCU_WAIT_NODE" and s[3]:
+                p, v = self.rv(s[3][0])
+                return p + [".pstore (.fieldAddr (.addrGlob %s) \"state\") (%s)" % (lstr("&" + s[2]), v)]
+            return []
+        if k == "listloop":
+            ci, ti, hi = LIST_LOOPS[s[1]]
+            args = s[2]
+            cur = args[ci]
+            if cur[0] != "id" or cur[1] not in self.locals:
+                raise Unsupported("list cursor is not a local")
+            pre, hv = self.args([a for j, a in enumerate(args) if j >= hi and j not in (ci, ti) and not (j > hi and a[0] == "id" and a[1] not in self.locals and j == len(args) - 1)])
+            it = self.tmp()
+            self.locals.add(it)
+            body_has_cont = contains_kind(s[3], "continue")
+            self.loop_depth += 1
+            try:
+                body = self.stmt(s[3])
+            finally:
+                self.loop_depth -= 1
+            head = [".assign %s (.var %s)" % (lstr(cur[1]), lstr(it)),
+                    ".ifte (.var %s) (.skip) (.brk)" % lstr(cur[1]),
+                    ".prim (some %s) (.ext %s) (%s ++ [.var %s])" % (lstr(it), lstr(s[1] + ".next"), hv, lstr(cur[1]))]
+            if ti is not None:
+                tv = args[ti]
+                if tv[0] != "id" or tv[1] not in self.locals:
+                    raise Unsupported("list temporary is not a local")
+                head.append(".assign %s (.var %s)" % (lstr(tv[1]), lstr(it)))
+            return pre + [".prim (some %s) (.ext %s) %s" % (lstr(it), lstr(s[1] + ".first"), hv),
+                          ".loop (%s)" % self.blk(head + body)]
         if k == "goto":
             self.goto_labels.add(s[1])
             return [".assign %s (.lit 1)" % lstr("_goto_" + s[1])] + ([".brk"] if self.loop_depth > 0 else [])
@@ -880,40 +973,66 @@ class Translator:
             t = self.tmp()
             self.locals.add(t)
             pre = p + [".assign %s (%s)" % (lstr(t), v)]
-            chain = None
-            default_body = []
-            arms = []
-            for labels, body in s[2]:
+
+            def terminated(body):
                 if not body:
-                    raise Unsupported("empty case falling through")
+                    return False
                 last = body[-1]
-                term_ok = last[0] in ("break", "goto", "return", "continue") or \
+                return last[0] in ("break", "goto", "return", "continue") or \
                     (last[0] == "expr" and last[1][0] == "call" and last[1][1] in NORETURN)
-                if not term_ok:
-                    raise Unsupported("case falling through")
-                inner = body[:-1] if last[0] == "break" else body
-                if any(contains_kind(b, "break") for b in inner):
-                    raise Unsupported("break nested inside a case body")
-                stm = self.blk(self.stmt_list(list(inner)))
+            simple = all(terminated(b) and not any(contains_kind(x, "break") for x in (b[:-1] if b[-1][0] == "break" else b))
+                         for _, b in s[2])
+            arms, default_body = [], None
+            cont_flag = None
+            if not simple:
+                # general form: the switch becomes a one-trip loop, `break` leaves it; a case that falls through runs the
+                # bodies of the following cases too; `continue` of an enclosing loop goes through a flag
+                if any(contains_kind(b, "continue") for _, b in s[2]):
+                    cont_flag = self.tmp()
+                    self.locals.add(cont_flag)
+            for idx, (labels, body) in enumerate(s[2]):
+                if simple:
+                    inner = body[:-1] if body[-1][0] == "break" else body
+                    stm = self.blk(self.stmt_list(list(inner)))
+                else:
+                    full = []
+                    for _, b2 in s[2][idx:]:
+                        full += list(b2)
+                        if terminated(b2):
+                            break
+                    self.loop_depth += 1
+                    try:
+                        if cont_flag:
+                            full = subst_continue(full, cont_flag)
+                        stm = self.blk(self.stmt_list(full))
+                    finally:
+                        self.loop_depth -= 1
                 if "default" in labels:
                     default_body = stm
-                    if len(labels) > 1:
-                        raise Unsupported("default sharing a case label")
-                else:
-                    conds = []
-                    for l in labels:
-                        pl, lv = self.rv(l)
-                        if pl:
-                            raise Unsupported("case label with effects")
-                        conds.append(".bin .eq (.var %s) (%s)" % (lstr(t), lv))
-                    c = conds[0]
-                    for c2 in conds[1:]:
-                        c = ".bin .lor (%s) (%s)" % (c, c2)
-                    arms.append((c, stm))
+                    labels = [l for l in labels if l != "default"]
+                    if not labels:
+                        continue
+                conds = []
+                for l in labels:
+                    pl, lv = self.rv(l)
+                    if pl:
+                        raise Unsupported("case label with effects")
+                    conds.append(".bin .eq (.var %s) (%s)" % (lstr(t), lv))
+                c = conds[0]
+                for c2 in conds[1:]:
+                    c = ".bin .lor (%s) (%s)" % (c, c2)
+                arms.append((c, stm))
             chain = default_body if default_body else ".skip"
             for c, stm in reversed(arms):
                 chain = ".ifte (%s) (%s) (%s)" % (c, stm, chain)
-            return pre + [chain]
+            if simple:
+                return pre + [chain]
+            out = pre + ([".assign %s (.lit 0)" % lstr(cont_flag)] if cont_flag else []) + [".loop (%s)" % self.blk([chain, ".brk"])]
+            if cont_flag:
+                if self.loop_depth == 0:
+                    raise Unsupported("continue in a switch outside a loop")
+                out.append(".ifte (.var %s) (.cont) (.skip)" % lstr(cont_flag))
+            return out
         if k == "expr":
             e = s[1]
             if e[0] == "call":
@@ -974,12 +1093,38 @@ def contains_kind(t, kind, stop=("loop", "while", "dowhile")):
     return False
 
 
+def subst_continue(stmts, flag):
+    """`continue` inside a switch that is rendered as a one-trip loop: set the flag and leave the one-trip loop"""
+    def f(t):
+        if isinstance(t, tuple) and t and t[0] == "continue":
+            return ("block", [("expr", ("assign", ("id", flag), ("num", 1))), ("break",)])
+        if isinstance(t, tuple) and t and t[0] in ("loop", "while", "dowhile", "listloop"):
+            return t
+        if isinstance(t, tuple):
+            return tuple(f(x) if isinstance(x, (tuple, list)) else x for x in t)
+        if isinstance(t, list):
+            return [f(x) if isinstance(x, (tuple, list)) else x for x in t]
+        return t
+    return [f(x) for x in stmts]
+
+
 def contains_label(t, l):
     if isinstance(t, tuple) and len(t) == 2 and t[0] == "label" and t[1] == l:
         return True
     if isinstance(t, (tuple, list)):
         return any(contains_label(x, l) for x in t if isinstance(x, (tuple, list)))
     return False
+
+
+def labels_in(t):
+    out = set()
+    if isinstance(t, tuple) and len(t) == 2 and t[0] == "label":
+        out.add(t[1])
+    if isinstance(t, (tuple, list)):
+        for x in t:
+            if isinstance(x, (tuple, list)):
+                out |= labels_in(x)
+    return out
 
 
 def gotos_in(t):
@@ -1006,6 +1151,17 @@ def address_taken(t):
     return out
 
 
+def declmacro_names(t):
+    out = []
+    if isinstance(t, tuple) and t and t[0] == "declmacro":
+        out.append(t[2])
+    if isinstance(t, (tuple, list)):
+        for x in t:
+            if isinstance(x, (tuple, list)):
+                out += declmacro_names(x)
+    return out
+
+
 def lname(n):
     return "«%s»" % n
 
@@ -1021,10 +1177,16 @@ UNITS = [
       ("call_rcu_completion_wait", "src/urcu-call-rcu-impl.h"), ("call_rcu_completion_wake_up", "src/urcu-call-rcu-impl.h"),
       ("wake_call_rcu_thread", "src/urcu-call-rcu-impl.h"), ("_call_rcu", "src/urcu-call-rcu-impl.h"),
       ("futex_wait", "src/workqueue.c"), ("futex_wake_up", "src/workqueue.c"), ("wake_worker_thread", "src/workqueue.c"),
-      ("wake_up_defer", "src/urcu-defer-impl.h"), ("wait_defer", "src/urcu-defer-impl.h")]),
-    ("memb.", ("RCU_MEMBARRIER",), ("src/urcu.c",), ["src/urcu.c"], [("smp_mb_master", "src/urcu.c"), ("wait_gp", "src/urcu.c")]),
-    ("mb.", ("RCU_MB",), ("src/urcu.c",), ["src/urcu.c"], [("smp_mb_master", "src/urcu.c"), ("wait_gp", "src/urcu.c")]),
-    ("qsbr.", (), ("src/urcu-qsbr.c",), ["src/urcu-qsbr.c"], [("wait_gp", "src/urcu-qsbr.c")]),
+      ("wake_up_defer", "src/urcu-defer-impl.h"), ("wait_defer", "src/urcu-defer-impl.h"),
+      ("urcu_wake_all_waiters", "src/urcu-wait.h")]),
+    ("memb.", ("RCU_MEMBARRIER",), ("src/urcu.c",), ["src/urcu.c", "src/urcu-wait.h"],
+     [("smp_mb_master", "src/urcu.c"), ("wait_gp", "src/urcu.c"), ("wait_for_readers", "src/urcu.c"), ("synchronize_rcu", "src/urcu.c")]),
+    ("mb.", ("RCU_MB",), ("src/urcu.c",), ["src/urcu.c", "src/urcu-wait.h"],
+     [("smp_mb_master", "src/urcu.c"), ("wait_gp", "src/urcu.c"), ("wait_for_readers", "src/urcu.c"), ("synchronize_rcu", "src/urcu.c")]),
+    ("qsbr.", (), ("src/urcu-qsbr.c",), ["src/urcu-qsbr.c", "src/urcu-wait.h"],
+     [("wait_gp", "src/urcu-qsbr.c"), ("wait_for_readers", "src/urcu-qsbr.c"), ("urcu_qsbr_synchronize_rcu", "src/urcu-qsbr.c")]),
+    ("bp.", (), ("src/urcu-bp.c",), ["src/urcu-bp.c"],
+     [("smp_mb_master", "src/urcu-bp.c"), ("wait_for_readers", "src/urcu-bp.c"), ("urcu_bp_synchronize_rcu", "src/urcu-bp.c")]),
 ]
 
 
@@ -1041,7 +1203,7 @@ def main():
     trs = []
     seen_defs = {}
     for prefix, defines, own, extra, roots in UNITS:
-        tr = Translator(defines, own, prefix, SEARCH + [f for f in extra if f not in SEARCH])
+        tr = Translator(defines, own, prefix, SEARCH + [f for f in extra if f not in SEARCH], consts)
         tr.consts = dict(consts)
         for name, f in roots:
             try:
@@ -1052,7 +1214,7 @@ def main():
         trs.append(tr)
     if not consts_txt:
         c = ["#define _LGPL_SOURCE 1", "#include <stdio.h>", "#include <stddef.h>", "#include <poll.h>", "#include <limits.h>",
-             "#include <stdlib.h>", "#include <errno.h>", "#include <linux/membarrier.h>", "#include <urcu/futex.h>", "#include <urcu/ref.h>",
+             "#include <stdlib.h>", "#include <errno.h>", "#include <signal.h>", "#include <pthread.h>", "#include <linux/membarrier.h>", "#include <urcu/futex.h>", "#include <urcu/ref.h>",
              "#include <urcu/urcu-memb.h>", "#include <urcu/urcu-bp.h>", "#include <urcu/urcu-qsbr.h>", "#include <urcu/wfstack.h>",
              "#include <urcu/lfstack.h>", "#include <urcu/wfcqueue.h>", "#include <urcu/rculfqueue.h>", "#include <urcu/call-rcu.h>",
              "#include <urcu/workqueue.h>" if os.path.exists(os.path.join(REPO, "include/urcu/workqueue.h")) else "",
@@ -1066,8 +1228,16 @@ def main():
             c.append('printf("%s %%ld\\n", (long)(%s));' % (n, n))
         for n, txt in sorted(cex.items()):
             c.append('printf("%s %%ld\\n", (long)(%s));' % (n, txt))
+        for tr in trs:
+            for n, txt in sorted(tr.local_consts.items()):
+                c.append('printf("%s %%ld\\n", (long)(%s));' % (n, txt))
         for ty, mem in sorted(zero):
             c.append("_Static_assert(offsetof(%s, %s) == 0, \"caa_container_of(%s,%s) is not the identity\");" % (ty, mem, ty, mem))
+        # file-level preprocessor conditions that are not plain defined()-tests: evaluated here, used by pass 2
+        for cond in sorted(set(u for tr in trs for _, u in tr.pp_unknown)):
+            if "defined" in cond and re.search(r"\b(RCU_\w+|HAS_INCOHERENT_CACHES)\b", cond):
+                continue
+            c.append("#if %s\nprintf(\"%s 1\\n\");\n#else\nprintf(\"%s 0\\n\");\n#endif" % (cond, pp_key(cond), pp_key(cond)))
         c.append("return 0; }")
         open(out_c, "w").write("\n".join(c) + "\n")
         if errors:
